@@ -2,6 +2,9 @@ import RsddModel.Model.GenCnfUp
 import RsddModel.Model.CnfUtil
 import RsddModel.Model.UnitProp
 import RsddModel.Lemmas.CnfUtil
+import RsddModel.Lemmas.UpSolverSpec
+import RsddModel.Props.C15
+import RsddModel.Props.C09
 import RsddModel.Lemmas.TieCnfUpAux
 /-!
 # Tie to the source text (translator route): `var_label.rs`, `model.rs`, `cnf.rs`
@@ -598,10 +601,186 @@ theorem up_loop (cnf : Cnf) : ∀ fuel, Gen.UnitProp.upLoop cnf fuel = UnitProp.
                  cases up <;> cases sp <;> simp <;> split <;> simp_all
            · simp [Step.fin'])
 
+/-! ## `SATSolver::update_hash_and_sat_set` -/
+theorem mulFirst_forStep (v : Nat) (f : Nat → Lit × Nat → Step Nat Empty)
+    (hf : ∀ h x, f h x = if x.1.var == v then .brk (wmul h x.2) else .go h) :
+    ∀ (c : List (Lit × Nat)) (h : Nat), (forStep c h f).fin' (fun h => h) = mulFirst v c h
+  | [], h => rfl
+  | x :: r, h => by
+    simp only [forStep, hf, mulFirst]
+    by_cases hx : x.1.var = v
+    · simp [hx, Step.fin']
+    · simp only [hx, beq_iff_eq, if_false]; exact mulFirst_forStep v f hf r h
+
+theorem mulUnset_fold (top : PModel) (f : Nat → Lit × Nat → Nat)
+    (hf : ∀ h x, f h x = if !((top x.1.var).isSome) then wmul h x.2 else h) :
+    ∀ (c : List (Lit × Nat)) (h : Nat), List.foldl f h c = mulUnset top c h := by
+  intro c h
+  simp only [mulUnset]
+  congr 1
+  funext h x
+  rw [hf]
+  cases top x.1.var <;> simp
+
+theorem update_hash : Gen.UnitProp.genUpdateHashAndSatSet = UnitProp.updateHashAndSatSet := by
+  first
+  | rfl
+  | (funext clauses n top m
+     simp only [Gen.UnitProp.genUpdateHashAndSatSet, UnitProp.updateHashAndSatSet]
+     rw [show (top.sat, top.hash) = (fun p : Nat × (Nat → Bool) => (p.2, p.1)) (top.hash, top.sat) from rfl]
+     rw [TieCnfUp.foldl_hom (fun p : Nat × (Nat → Bool) => (p.2, p.1)) _ (pass1Lit clauses top.model)]
+     · simp only []
+       congr 1
+       congr 1
+       funext h lit
+       simp only [pass2Lit]
+       cases lit.pol <;> simp only [Bool.not_true, Bool.not_false, if_true, if_false, Bool.false_eq_true] <;>
+         (congr 1; funext h ci; split; exact rfl; exact mulFirst_forStep lit.var _ (by intro h x; rfl) _ h)
+     · intro a lit
+       simp only [pass1Lit]
+       rw [show (a.2, a.1) = (fun p : Nat × (Nat → Bool) => (p.2, p.1)) a from rfl]
+       cases lit.pol <;> simp only [if_true, if_false, Bool.false_eq_true] <;>
+         (rw [TieCnfUp.foldl_hom (fun p : Nat × (Nat → Bool) => (p.2, p.1)) _
+            (fun acc ci => if acc.2 ci then acc else (mulUnset top.model (clauses.getD ci []) acc.1, setInsert acc.2 ci))]
+          intro acc ci
+          simp only []
+          cases acc.2 ci <;> simp only [if_true, if_false, Bool.false_eq_true]
+          rw [mulUnset_fold top.model _ (by intro h x; rfl)]))
+
+/-! ## `SATSolver::new` (the occurrence lists `contains_pos_lit` / `contains_neg_lit` are not part of the model, which
+computes `containsLit` on demand: the statements that build them are skipped by the translator) -/
+theorem weighClause_mapAccum (f : Nat → Lit → (Lit × Nat) × Nat) (hf : ∀ p l, f p l = ((l, nextPrime p), nextPrime p)) :
+    ∀ (ls : List Lit) (p : Nat), mapAccum f p ls = weighClause ls p
+  | [], p => rfl
+  | l :: ls, p => by
+    simp only [mapAccum, hf, weighClause, weighClause_mapAccum f hf ls]
+
+theorem weighClauses_mapAccum (f : Nat → List Lit → List (Lit × Nat) × Nat) (hf : ∀ p c, f p c = weighClause c p) :
+    ∀ (cs : List (List Lit)) (p : Nat), (mapAccum f p cs).1 = weighClauses cs p
+  | [], p => rfl
+  | c :: cs, p => by
+    simp only [mapAccum, hf, weighClauses, weighClauses_mapAccum f hf cs]
+
+theorem taut_pairs (c : List Lit) :
+    (List.range c.length).all (fun i => (List.range' (i + 1) (c.length - (i + 1))).all (fun j =>
+      !((c.getD i default).var == (c.getD j default).var && (c.getD i default).pol != (c.getD j default).pol)))
+    = !isTaut c := by
+  have hget : ∀ i (hi : i < c.length), c.getD i default = c[i] := by
+    intro i hi; simp [List.getD_eq_getElem?_getD, hi]
+  cases ht : isTaut c with
+  | false =>
+    simp only [Bool.not_false, List.all_eq_true, List.mem_range, List.mem_range'_1]
+    intro i hi j hj
+    have hjl : j < c.length := by omega
+    cases hP : ((c.getD i default).var == (c.getD j default).var && (c.getD i default).pol != (c.getD j default).pol) with
+    | false => rfl
+    | true =>
+      exfalso
+      have : isTaut c = true := TopDown.isTaut_iff.2
+        ⟨c[i], List.getElem_mem hi, c[j], List.getElem_mem hjl, by
+          rw [hget i hi, hget j hjl] at hP; simpa using hP⟩
+      rw [ht] at this; cases this
+  | true =>
+    obtain ⟨x, hx, y, hy, hv, hp⟩ := TopDown.isTaut_iff.1 ht
+    obtain ⟨a, ha, rfl⟩ := List.mem_iff_getElem.1 hx
+    obtain ⟨b, hb, rfl⟩ := List.mem_iff_getElem.1 hy
+    simp only [Bool.not_true]
+    apply Bool.eq_false_iff.2
+    intro hall
+    simp only [List.all_eq_true, List.mem_range, List.mem_range'_1] at hall
+    have key : ∀ i j (hi : i < c.length) (hj : j < c.length), i < j → ¬ (c[i].var = c[j].var ∧ c[i].pol ≠ c[j].pol) := by
+      intro i j hi hj hij hP
+      have := hall i hi j ⟨by omega, by omega⟩
+      rw [hget i hi, hget j hj] at this
+      simp [hP.1, hP.2] at this
+    rcases Nat.lt_trichotomy a b with h | h | h
+    · exact key a b ha hb h ⟨hv, hp⟩
+    · subst h; exact hp rfl
+    · exact key b a hb ha h ⟨hv.symm, fun e => hp e.symm⟩
+
+theorem solver_new : Gen.UnitProp.solverNew = TieAux.solverNewModel := by
+  first
+  | rfl
+  | (funext cnf
+     simp only [Gen.UnitProp.solverNew, TieAux.solverNewModel, Solver.new]
+     rw [List.filter_congr (q := fun c => !isTaut c)]
+     · rw [weighClauses_mapAccum _ (by
+         intro p c
+         simp only [weighClause_mapAccum _ (fun _ _ => rfl)])]
+       rfl
+     · intro c _
+       rw [TieCnfUp.forStep_all (fun i => (List.range' (i + 1) (c.length - (i + 1))).all (fun j =>
+           !((c.getD i default).var == (c.getD j default).var && (c.getD i default).pol != (c.getD j default).pol))) false]
+       · rw [← taut_pairs c]
+         cases (List.range c.length).all _ <;> rfl
+       · intro i
+         rw [TieCnfUp.forStep_all (fun j =>
+           !((c.getD i default).var == (c.getD j default).var && (c.getD i default).pol != (c.getD j default).pol)) false]
+         · cases (List.range' (i + 1) (c.length - (i + 1))).all _ <;> rfl
+         · intro j
+           cases ((c.getD i default).var == (c.getD j default).var && (c.getD i default).pol != (c.getD j default).pol) <;> rfl)
+
+/-! ## `UnitPropagate::new` (tied to `TieAux.upNewModel`: `UnitProp.upNew` with the watch lists of a `None` result erased) -/
+theorem foldl_keep {α β : Type} (a : α) : ∀ (l : List β), List.foldl (fun (x : α) _ => x) a l = a
+  | [] => rfl
+  | _ :: l => foldl_keep a l
+
+theorem upNew_scan (f : List Lit × WL → Nat × List Lit → Step (List Lit × WL) (Option (Option (WL × PModel))))
+    (hf : ∀ st i c, f st (i, c) = if c.isEmpty then .ret (some none)
+      else if c.length == 1 then .go (st.1 ++ [c.getD 0 default], st.2)
+      else .go (st.1, (st.2.push (c.getD 1 default) i).push (c.getD 0 default) i)) :
+    ∀ (cs : List (List Lit)) (i : Nat) (imp : List Lit) (wl : WL),
+      forStep (enumFrom i cs) (imp, wl) f =
+        if cs.any List.isEmpty then .ret (some none) else .go (imp ++ impliedUnits cs, initWatches cs i wl)
+  | [], i, imp, wl => by simp [enumFrom, forStep, impliedUnits, initWatches]
+  | c :: cs, i, imp, wl => by
+    have ih := upNew_scan f hf cs (i + 1)
+    simp only [enumFrom, forStep, hf, List.any_cons]
+    match c with
+    | [] => simp
+    | [u] => simp [ih, impliedUnits, initWatches]
+    | a :: b :: t => simp [ih, impliedUnits, initWatches]
+
+theorem upNew_decideAll (dec : WL → PModel → Lit → Option UPOut)
+    (g : WL × PModel → Lit → Step (WL × PModel) (Option (Option (WL × PModel))))
+    (hg : ∀ st u, g st u = match dec st.1 st.2 u with
+      | none => .ret none | some (_, none) => .ret (some none) | some (wl', some m') => .go (wl', m')) :
+    ∀ (us : List Lit) (wl : WL) (m : PModel),
+      (forStep us (wl, m) g).fin (fun st => some (some (st.1, st.2))) (fun r => r) =
+        match decideAll dec us wl m with
+        | none => none | some (_, none) => some none | some (wl', some m') => some (some (wl', m'))
+  | [], wl, m => rfl
+  | u :: us, wl, m => by
+    simp only [forStep, hg, decideAll]
+    cases hd : dec wl m u with
+    | none => rfl
+    | some r =>
+      obtain ⟨wl', o⟩ := r
+      cases o with
+      | none => rfl
+      | some m' => exact upNew_decideAll dec g hg us wl' m'
+
+theorem up_new : Gen.UnitProp.genUpNew = TieAux.upNewModel := by
+  first
+  | rfl
+  | (funext cnf fuel
+     simp only [Gen.UnitProp.genUpNew, TieAux.upNewModel, upNew, TieAux.enum, foldl_keep]
+     rw [upNew_scan _ (by
+       intro st i c
+       simp only [WL.push]
+       cases (c.getD 1 default).pol <;> cases (c.getD 0 default).pol <;> rfl)]
+     by_cases he : cnf.any List.isEmpty = true
+     · simp [he, Step.fin]
+     · simp only [he, Bool.false_eq_true, if_false, Step.fin, List.nil_append]
+       exact upNew_decideAll (decideK (loop cnf true fuel)) _ (by intro st u; rfl) _ _ _)
+
 end TieUp
 
 #print axioms TieUp.up_decideK
 #print axioms TieUp.up_loop
+#print axioms TieUp.update_hash
+#print axioms TieUp.up_new
+#print axioms TieUp.solver_new
 #print axioms TieUp.solver_pop
 #print axioms TieUp.solver_cur_hash
 #print axioms TieUp.solver_is_sat
@@ -609,6 +788,41 @@ end TieUp
 #print axioms TieUp.solver_difference_iter
 #print axioms TieUp.solver_decide
 
+/-! # Source-level corollaries: property theorems restated for the definitions regenerated from the Rust text -/
+namespace TieCnfUpSource
+open Spec
+
+/-- C15 `eval_spec` for `Cnf::new` / `Cnf::eval` as the source says now -/
+theorem eval_spec_source (cs : List (List Lit)) (v : List Bool)
+    (h : Gen.CnfUtil.cnfNumVars (Gen.CnfUtil.cnfNew cs) ≤ v.length) :
+    Gen.CnfUtil.cnfEval (Gen.CnfUtil.cnfNew cs) v = some (cnfSat (CnfUtil.asgFn v) cs) := by
+  rw [TieCnfUp.cnf_new, TieCnfUp.cnf_num_vars] at h
+  rw [TieCnfUp.cnf_new, TieCnfUp.cnf_eval]
+  exact C15.eval_spec cs v h
+
+/-- C15 `wmc_spec`: `Cnf::wmc` as the source says now never panics and is the weighted model count -/
+theorem wmc_spec_source {α : Type} {S : SROps α} (hS : S.Laws) (cs : List (List Lit)) (w : Weights α) (a : Assign) :
+    Gen.CnfUtil.cnfWmc S (Gen.CnfUtil.cnfNew cs) w = some (wsum S (List.range (cnfNumVars cs)) w (cnfFn cs) a) := by
+  rw [TieCnfUp.cnf_new, TieCnfUp.cnf_wmc]
+  exact C15.wmc_spec hS cs w a
+
+/-- C15 `wmc_empty` (the content of the historical fix ce7c18b) for the source as it is now -/
+theorem wmc_empty_source {α : Type} {S : SROps α} (hS : S.Laws) (w : Weights α) :
+    Gen.CnfUtil.cnfWmc S (Gen.CnfUtil.cnfNew []) w = some S.one := by
+  rw [TieCnfUp.cnf_new, TieCnfUp.cnf_wmc]
+  exact C15.wmc_empty hS w
+
+/-- C09 `new_unsat_sound`: when `SATSolver::new` as the source says now answers `None`, the formula is unsatisfiable -/
+theorem new_unsat_sound_source {cnf : Cnf} (h : Gen.UnitProp.solverNew cnf = some none) : ∀ a, cnfSat a cnf = false := by
+  rw [TieUp.solver_new] at h
+  exact UnitProp.new_unsat_sound h
+
+end TieCnfUpSource
+
+#print axioms TieCnfUpSource.eval_spec_source
+#print axioms TieCnfUpSource.wmc_spec_source
+#print axioms TieCnfUpSource.wmc_empty_source
+#print axioms TieCnfUpSource.new_unsat_sound_source
 #print axioms TieCnfUp.literal_new
 #print axioms TieCnfUp.literal_label
 #print axioms TieCnfUp.literal_polarity
